@@ -46,8 +46,14 @@ func c08Run(w *W) {
 			w.UseNet(NetCfg{BufCap: 64})
 		}
 	}
+	// a dialled link is lost (once or twice) and re-established by its dialer
+	// before the traffic starts: afterwards there must again be exactly one
+	// link per pair - every message once, nothing echoed
+	flap := !slow && !burst && w.Choose(simrt.SShape, 3) == 0
 	w.SetShape("slow_member", slow)
 	w.SetShape("burst", burst)
+	w.SetShape("link_flap", flap)
+	var dialled []mangos.Pipe
 	var members []*c8Member
 	var all []mangos.Socket
 	defer func() {
@@ -57,6 +63,13 @@ func c08Run(w *W) {
 	}()
 	mk := func(name, kind string) *c8Member {
 		m := &c8Member{name: name, s: w.Sock(kind), expect: map[string]bool{}, sender: true}
+		_ = m.s.SetOption(mangos.OptionReconnectTime, 10*time.Millisecond)
+		_ = m.s.SetOption(mangos.OptionMaxReconnectTime, 10*time.Millisecond)
+		m.s.SetPipeEventHook(func(ev mangos.PipeEvent, p mangos.Pipe) {
+			if ev == mangos.PipeEventAttached && p.Dialer() != nil {
+				dialled = append(dialled, p)
+			}
+		})
 
 		if burst {
 			// only the receive queue is small; the send queues keep their 128
@@ -162,6 +175,21 @@ func c08Run(w *W) {
 	w.Op("topology %s over %s: %d members, each sends %d messages from %d tasks", topo, tran, len(members), nmsg, ntask)
 	w.Sleep(5 * time.Millisecond)
 	w.Settle()
+	if flap {
+		for k := 1 + w.Choose(simrt.SProg, 2); k > 0 && len(dialled) > 0; k-- {
+			p := dialled[w.Choose(simrt.SProg, len(dialled))]
+			w.Op("link %s (pipe %x) is lost", p.Address(), p.ID())
+			w.Fault("close")
+			if tran == "sim" && w.Choose(simrt.SProg, 2) == 0 {
+				resetSomeConn(w, "")
+			} else {
+				_ = p.Close()
+			}
+			w.Sleep(300 * time.Millisecond) // 30 reconnect intervals
+			w.Settle()
+		}
+		w.Probe("link-flap-before-traffic")
+	}
 	var slowM *c8Member
 	if slow {
 		// the last leaf never reads and never sends
